@@ -125,7 +125,7 @@ def case_exp_log(H, g):
             # |phi| = 2|atan(|v|/w)|, sin(|phi|/2) = |v|, cos(|phi|/2) = |w| (and the full-angle pair); then the goals.
             for sign, tag in ((1, 'w>0'), (-1, 'w<0')):
                 case, lem = quat_log_lemmas(ctx, sign)
-                hy, lobs = H.chain('%s/path%d/%s' % (name, pn, tag), hyp + case, lem, replay=replay, key=key, timeout=2 * to)
+                hy, lobs, _tab = H.chain('%s/path%d/%s' % (name, pn, tag), hyp + case, lem, replay=replay, key=key, timeout=2 * to)
                 for nm, l, r in pairs:
                     d = l - r
                     H.prove('%s/path%d/%s/%s' % (name, pn, tag, nm), hy, l == r, replay=replay, key=key, timeout=2 * to, depends=lobs,
